@@ -7,8 +7,8 @@
    not yet covered by a theorem are decided by the implementation <-> specification <->
    hardware differential run only (listed as unproved_forms in the evidence). *)
 From Coq Require Import ZArith Bool List.
-From AxV Require Import Bits Outcome Codes Iced State Rt Mem Trace Exec ExecP FrameTac FrameP RegFile RegsP ISA CodeSem IsaP OperandP MovP.
-From AxG Require Import Flags Regs Operand Helpers Dispatch Frame I_lea I_mov.
+From AxV Require Import Bits Outcome Codes Iced State Rt Mem Trace Exec ExecP FrameTac FrameP RegFile RegsP ISA CodeSem IsaP OperandP MovP ByteStore RmP AluRmP DivP Examples.
+From AxG Require Import Flags Regs Operand Helpers Dispatch Frame I_lea I_mov I_div I_idiv I_cmovae I_cmove I_cmovne.
 Local Open Scope Z_scope.
 
 (* apart from registers, flags, memory contents, FS/GS, the trace and the call stack,
@@ -24,6 +24,62 @@ Proof. vm_compute. reflexivity. Qed.
 
 Theorem C01_pinned_form_count : length pinned_forms = 313%nat.
 Proof. vm_compute. reflexivity. Qed.
+
+(* MOV r64, r/m64 and CMOVcc r64, r/m64 with a register or memory source: the specification's
+   result; an error exactly when the load of the source faults (CMOVcc loads - and may fault - even
+   when its condition is false); nothing else changes.  [refines i s sm run]: isa_exec sm i s =
+   IDone s' 0 -> run = (Ok tt, s'); = IFault FMem -> exists e, run = (Err e, s); no other fault. *)
+Theorem C01_mov_cmov_r64_rm64 : forall c i s,
+  wf_regs s -> Inv (mem s) -> i_op_count i = 2 ->
+  i_op_kind i 0 = OK_Register -> is_gpr64 (i_op_register i 0) = true -> rm64_shape i 1 ->
+  (i_code i = C_Mov_r64_rm64 -> refines i s (SMov 64) (instr_mov_r64_rm64 c i s)) /\
+  (i_code i = C_Cmovae_r64_rm64 -> refines i s (SCmov CC_AE 64) (instr_cmovae_r64_rm64 c i s)) /\
+  (i_code i = C_Cmove_r64_rm64 -> refines i s (SCmov CC_E 64) (instr_cmove_r64_rm64 c i s)) /\
+  (i_code i = C_Cmovne_r64_rm64 -> refines i s (SCmov CC_NE 64) (instr_cmovne_r64_rm64 c i s)).
+Proof.
+  intros c i s Hwf HI Hn K0 H0 Hs. repeat split; intros Ec.
+  - exact (mov_r64_rm64_refines c i s Hwf HI Hn K0 H0 Hs Ec).
+  - exact (cmovae_r64_rm64_refines c i s Hwf HI Hn K0 H0 Hs Ec).
+  - exact (cmove_r64_rm64_refines c i s Hwf HI Hn K0 H0 Hs Ec).
+  - exact (cmovne_r64_rm64_refines c i s Hwf HI Hn K0 H0 Hs Ec).
+Qed.
+
+(* DIV r/m64: quotient and remainder of RDX:RAX by the register or memory divisor (the complete
+   statement, including the failing cases, is C06_div_rm64) *)
+Theorem C01_div_rm64 : forall c i s,
+  wf_regs s -> Inv (mem s) -> i_op_count i = 1 -> rm64_shape i 0 -> i_code i = C_Div_rm64 ->
+  forall s' u, isa_exec (SDiv 64) i s = IDone s' u -> instr_div_rm64 c i s = (Ok tt, s').
+Proof.
+  intros c i s Hwf HI Hn Hs Ec s' u E. pose proof (div_rm64_refines c i s Hwf HI Hn Hs Ec) as R.
+  rewrite E in R. exact R.
+Qed.
+
+(* IDIV r/m64 is the CPU's for every divisor with a clear sign bit ... *)
+Theorem C01_idiv_rm64_partial : forall c i s,
+  wf_regs s -> Inv (mem s) -> i_op_count i = 1 -> rm64_shape i 0 -> i_code i = C_Idiv_rm64 ->
+  (forall d, read_op i 0 64 s = Some d -> d < 2 ^ 63) ->
+  forall s' u, isa_exec (SIdiv 64) i s = IDone s' u -> instr_idiv_rm64 c i s = (Ok tt, s').
+Proof.
+  intros c i s Hwf HI Hn Hs Ec Hp s' u E. pose proof (idiv_rm64_refines_nonneg_divisor c i s Hwf HI Hn Hs Ec Hp) as R.
+  rewrite E in R. exact R.
+Qed.
+
+(* ... and the statement without that restriction is false of the faithful model: known finding
+   KF-C01-idiv64-divisor with its witness, 10 / -1.  CPU and specification: quotient -10; the
+   emulator zero-extends the divisor and returns 0 remainder 10, in both build configurations.
+   The witness is replayed against the implementation on every run (corpus/kf_golden.json). *)
+Theorem C01_idiv64_negative_divisor_refuted :
+  let s := regs3 10 0 (2 ^ 64 - 1) in
+  wf_regs s /\ Inv (mem s) /\ i_op_count idiv_rcx = 1 /\ rm64_shape idiv_rcx 0 /\ i_code idiv_rcx = C_Idiv_rm64 /\
+  match isa_exec (SIdiv 64) idiv_rcx s with
+  | IDone s1 _ => regs s1 RAX = 2 ^ 64 - 10 /\ regs s1 RDX = 0
+  | _ => False
+  end /\
+  forall c, match instr_idiv_rm64 c idiv_rcx s with
+            | (Ok tt, s2) => regs s2 RAX = 0 /\ regs s2 RDX = 10
+            | _ => False
+            end.
+Proof. exact idiv_rm64_negative_divisor_refuted. Qed.
 
 Print Assumptions C01_nothing_else_changes.
 
@@ -62,3 +118,7 @@ Proof. exact mov_r64_m64_refines. Qed.
 Print Assumptions C01_lea_r64.
 Print Assumptions C01_mov_r64_r64.
 Print Assumptions C01_mov_r64_m64.
+Print Assumptions C01_div_rm64.
+Print Assumptions C01_idiv_rm64_partial.
+Print Assumptions C01_idiv64_negative_divisor_refuted.
+Print Assumptions C01_mov_cmov_r64_rm64.
